@@ -615,9 +615,9 @@ func Run(c *core.Ctx) {
 	var probeWant []string // taken after the first (cold) scenario of the process
 	first := true
 
-	nNoif := c.Pick(128, 160)
-	nCanary := c.Pick(64, 64)
-	nMixed := c.Pick(128, 160)
+	nNoif := c.Pick(128, 480)
+	nCanary := c.Pick(64, 192)
+	nMixed := c.Pick(128, 480)
 	type plan struct {
 		stream string
 		n      int
